@@ -103,6 +103,10 @@ fn main() {
     case!(l_res, Err::<&'static Tok, Tok>(t(2)), "E(L2)");
     case!(l_tup, (&STATIC_TOK, t(2)), "T[L9,L2]");
     case!(l_vec_opt, vec![Some(&STATIC_TOK), None, Some(&STATIC_TOK)], "V[S(L9),N,S(L9)]");
+    // methods that also have a default body: same shapes, and an exhausted single-use value is still refused
+    case!(b_opt_res, Some(Err::<Tok, Tok>(t(2))), "S(E(L2))");
+    case!(b_opt_res, Some(Ok::<Tok, Tok>(t(1))), "S(O(L1))");
+    case!(b_tup, (t(1), t(2)), "T[L1,L2]");
     case!(d_opt_vec_res, None::<Vec<Result<Tok, Tok>>>, "N");
     case!(d_opt_vec_res, Some(vec![Ok::<Tok, Tok>(t(1)), Err(t(2)), Ok(t(3))]), "S(V[O(L1),E(L2),O(L3)])");
 }
